@@ -17,7 +17,7 @@
     compares every result; the property oracle ([Spec]) is evaluated on a
     trace rebuilt from the implementation's results alone. *)
 From Coq Require Import List ZArith NArith Bool String.
-From C33 Require Import Lib.Harness C38.Model C38.Spec.
+From C33 Require Import Lib.Harness C38.Model C38.Spec C38.Witness.
 Import ListNotations.
 Open Scope Z_scope.
 
@@ -35,7 +35,12 @@ Inductive item :=
 
 Inductive case :=
 | CHist (items : list item)
-| CDict (tab : list (list N)).   (* self-check: the harness's password table *)
+| CDict (tab : list (list N))    (* self-check: the harness's password table *)
+| CLostLock (trials hits : N).
+    (* the hammer (a test): ProcWalletSetPasswd with a wrong old password in a loop
+       on an unlocked wallet, concurrently [trials] times: ProcWalletLock returned
+       nil, then CheckWalletStatus (under the mutex, after the SetPasswd in flight);
+       [hits] = how often it still said "unlocked" although nobody had unlocked *)
 
 (** password table shared with the harness (cases say [p 3]) *)
 Definition pwtab : list pw :=
@@ -225,4 +230,12 @@ Definition check_case (c : case) : verdict :=
       let s := obs_ok_timed tr && obs_ok true tr in
       (run_items init_g its, s, if s then 0%N else kf_code tr)
   | CDict tab => mk_verdict (list_eqb bytes_eqb tab pwtab) true
+  | CLostLock _ hits =>
+      (* the model can show exactly this: lock returned ok, the concurrent password
+         change failed, and the status test under the mutex passes *)
+      let g := exec (sched_lost_lock_with (QSecret KStatus) 5) init_g in
+      let model_can :=
+        ores_eqb (result_of g 2) (RErr eVerifyOld) && ores_eqb (result_of g 3) ROk
+        && ores_eqb (result_of g 4) ROk && negb (obs_ok false (trace g)) in
+      if N.eqb hits 0 then ok_verdict else (model_can, false, 2%N)
   end.
